@@ -63,7 +63,8 @@ func (c Cat) Depth() int {
 // an expression (string setting with references).
 type Setting struct {
 	Plain interface{}
-	Expr  Exp // non-nil: the setting's text is Expr.Render()
+	Expr  Exp      // non-nil: the setting's text is Expr.Render()
+	Group []string // non-nil: the setting is an object; names (full dotted) of its members
 }
 
 // Layer maps dotted names to settings (a flat view of a config tree; a name is
@@ -94,19 +95,30 @@ type Outcome struct {
 	Kind  Kind
 	Str   string      // text form (Value), message (UserErr)
 	Typed interface{} // the referenced value itself for a setting that is exactly one reference
+	Group bool        // the value is an object of the configuration (its text form is not defined)
+	// TouchedGroup: the evaluation went through an object reference somewhere (which
+	// read entries consume only partially). Absorbed: a cyclic outcome was absorbed by a
+	// default operator or a resolver somewhere, which makes the value depend on where
+	// the cycle was entered (not fixed by the statement).
+	TouchedGroup bool
+	Absorbed     bool
 }
 
 func val(s string) Outcome { return Outcome{Kind: Value, Str: s} }
 
 type evaluator struct {
-	env   *Env
-	steps int
+	env          *Env
+	steps        int
+	touchedGroup bool
+	absorbed     bool
 }
 
 // Eval evaluates the text of a setting that lives in env.Root.
 func Eval(env *Env, e Exp) Outcome {
 	ev := &evaluator{env: env}
-	return ev.evalSetting(env.Root, e, nil)
+	o := ev.evalSetting(env.Root, e, nil)
+	o.TouchedGroup, o.Absorbed = ev.touchedGroup, ev.absorbed
+	return o
 }
 
 // evalSetting: a setting that is exactly ${N} takes the referenced value with its type.
@@ -147,8 +159,31 @@ func (ev *evaluator) deref(home Layer, name string, stack []string, typed bool) 
 	layers := append([]Layer{home}, reverse(ev.env.Envs)...)
 	for _, l := range layers {
 		s, ok := l[name]
-		if !ok || (s.Plain == nil && s.Expr == nil) {
+		if !ok || (s.Plain == nil && s.Expr == nil && s.Group == nil) {
 			continue
+		}
+		if s.Group != nil {
+			ev.touchedGroup = true
+			if !typed {
+				return Outcome{Kind: Undefined} // text form of an object
+			}
+			// consuming an object evaluates its members
+			for _, m := range s.Group {
+				ms := l[m]
+				var o Outcome
+				switch {
+				case ms.Expr != nil:
+					o = ev.evalSetting(l, ms.Expr, stack)
+				case ms.Group != nil:
+					o = ev.deref(l, m, stack, true)
+				default:
+					continue
+				}
+				if o.Kind != Value {
+					return o
+				}
+			}
+			return Outcome{Kind: Value, Group: true}
 		}
 		if s.Expr != nil {
 			// a setting of an Env config is evaluated in its own tree
@@ -170,6 +205,9 @@ func (ev *evaluator) deref(home Layer, name string, stack []string, typed bool) 
 func (ev *evaluator) resolverOr(name string, o Outcome) Outcome {
 	for i := len(ev.env.Resolvers) - 1; i >= 0; i-- {
 		if v, ok := ev.env.Resolvers[i][name]; ok {
+			if o.Kind == Cyclic {
+				ev.absorbed = true
+			}
 			return val(v)
 		}
 	}
@@ -203,7 +241,11 @@ func (ev *evaluator) eval(home Layer, x Exp, stack []string) Outcome {
 		if n.Kind != Value {
 			return n
 		}
-		return ev.deref(home, n.Str, stack, false)
+		o := ev.deref(home, n.Str, stack, false)
+		if o.Kind == Value && o.Group {
+			return Outcome{Kind: Undefined} // text form of an object
+		}
+		return o
 	case Op:
 		n := ev.eval(home, t.Name, stack)
 		if n.Kind == Undefined {
@@ -212,11 +254,17 @@ func (ev *evaluator) eval(home Layer, x Exp, stack []string) Outcome {
 		var o Outcome
 		if n.Kind == Value && n.Str != "" {
 			o = ev.deref(home, n.Str, stack, false)
-			if o.Kind == Undefined {
-				return o
+			if o.Kind == Undefined || (o.Kind == Value && o.Group) {
+				return Outcome{Kind: Undefined}
 			}
 		} else {
+			if n.Kind == Cyclic {
+				ev.absorbed = true
+			}
 			o = Outcome{Kind: Missing}
+		}
+		if o.Kind == Cyclic {
+			ev.absorbed = true // every operator absorbs a failed lookup
 		}
 		set := o.Kind == Value
 		switch t.Kind {
